@@ -76,10 +76,40 @@ def run_program(binary, text, workdir, tag, extra_args=()):
     return p.returncode, p.stdout, p.stderr, events
 
 
+def _sexp(toks, i):
+    if toks[i] == "(":
+        i += 1
+        items = []
+        while toks[i] != ")":
+            x, i = _sexp(toks, i)
+            items.append(x)
+        return items, i + 1
+    t = toks[i]
+    return (int(t) if re.fullmatch(r"-?\d+", t) else t), i + 1
+
+
+def _to_val(x):
+    if isinstance(x, list):
+        return (x[0], tuple(_to_val(y) for y in x[1:]))
+    return x
+
+
 def parse_out(stdout, rel="Out"):
+    """rows of `(print-function rel)`: lines `(rel a1 .. an) -> ...`; arguments are integers or constructor terms"""
     rows = set()
-    for m in re.finditer(r"\(%s((?:\s+-?\d+)*)\)\s*->" % re.escape(rel), stdout):
-        rows.add(tuple(int(x) for x in m.group(1).split()))
+    for line in stdout.splitlines():
+        line = line.strip()
+        if not line.startswith("(%s" % rel) or "->" not in line:
+            continue
+        lhs = line.split("->")[0].strip()
+        toks = re.findall(r"[()]|[^\s()]+", lhs)
+        try:
+            x, _ = _sexp(toks, 0)
+        except IndexError:
+            continue
+        if not isinstance(x, list) or x[0] != rel:
+            continue
+        rows.add(tuple(_to_val(y) for y in x[1:]))
     return rows
 
 
@@ -140,7 +170,7 @@ def eval_body(atoms, tid_of, db, small_only=True, new_since=None, head=None, inc
         for key, (val, ts, sub) in db.get(tid_of[a.name], {}).items():
             if sub and not include_subsumed:
                 continue
-            if small_only and any(k >= gen.BIG for k in key):
+            if small_only and not all(gen.is_small(k) for k in key):
                 continue
             row = tuple(key) + ((val,) if a.is_func else ())
             idx.setdefault(tuple(row[p] for p in bpos), []).append((row, ts))
@@ -179,10 +209,25 @@ def profile_db(atoms, profile, seed, tid_of):
     db = {}
     for name, ar in sorted(sig.items()):
         rows = {}
-        for key, val in gen.profile_rows(name, ar, name[0].islower(), over.get(name, default), seed):
-            rows[tuple(key)] = (val, 0, 0)
-        db[tid_of[name]] = rows
+        for key, val in gen.profile_rows(name, ar, None, over.get(name, default), seed, atoms.types):
+            insert_row(db, tid_of, name, tuple(key), val, 0)
+        db.setdefault(tid_of[name], {})
     return db
+
+
+def insert_row(db, tid_of, name, key, val, ts):
+    """insert a row the way a fact does: constructor sub-terms in the key are created first (same timestamp) if absent;
+    a constructor row's value is the term itself; an existing tuple is left alone.  -> True if the row is new"""
+    for x in key:
+        if isinstance(x, tuple):
+            insert_row(db, tid_of, x[0], tuple(x[1]), None, ts)
+    rows = db.setdefault(tid_of[name], {})
+    if key in rows:
+        return False
+    if gen.kind_of(name) == "ctor":
+        val = (name, tuple(key))
+    rows[key] = (val, ts, 0)
+    return True
 
 
 def merged(base, db):
@@ -193,7 +238,7 @@ def merged(base, db):
 
 
 def all_small(t):
-    return all(x < gen.BIG for x in t)
+    return all(gen.is_small(x) for x in t)
 
 
 # ------------------------------------------------------------------------------------------------
@@ -245,13 +290,17 @@ class Validator:
         self.solver_s = 0.0
         self.queries = 0
 
-    def tables(self):
+    def tables(self, rows=R):
         ts = {}
         for a in self.atoms:
             tid = self.tid_of[a.name]
             if tid not in ts:
                 f = self.names[tid]
-                ts[tid] = model.Table(tid, f["func_cols"], f["can_subsume"], R, name=f["name"])
+                at, rt = self.atoms.types[a.name]
+                coltypes = list(at) + [rt if rt is not None else "id"]
+                if len(coltypes) != f["func_cols"]:
+                    raise model.ModelError("table %s has %d function columns, the generator expected %d" % (a.name, f["func_cols"], len(coltypes)))
+                ts[tid] = model.Table(tid, f["func_cols"], f["can_subsume"], rows, name=f["name"], coltypes=coltypes)
         return ts
 
     def flat_source(self):
@@ -277,6 +326,7 @@ class Validator:
         wf = []
         for t in tables.values():
             wf += t.wellformed(D, nts)
+        wf += model.eqsort_wellformed(tables)
         src = model.source_tuples(self.flat_source(), self.vs, tables, self.include_subsumed)
         tup = [z3.Int("tup_%s" % v) for v in self.vs]
         in_all = z3.Or([z3.And(c, *[a == b for a, b in zip(t, tup)]) for c, t, _, _ in src])
@@ -382,31 +432,49 @@ class Validator:
             for cols, pres in t.rows:
                 if z3.is_true(m.eval(pres, model_completion=True)):
                     rows.append([m.eval(c, model_completion=True).as_long() for c in cols])
-            db[t.name] = {"func_cols": t.func_cols, "subsume": t.subsume, "rows": rows}
+            db[t.name] = {"func_cols": t.func_cols, "subsume": t.subsume, "rows": rows, "coltypes": t.coltypes}
         return {"kind": kind, "tuple": [m.eval(x, model_completion=True).as_long() for x in tup], "db": db}
 
     # -- model pinned to a concrete database, compared with the real executor's output -------------
     def pinned_outputs(self, rule_rec, variants, cdb):
-        tables = self.tables()
+        """the Out tuples the model derives when the symbolic database is pinned to the concrete one (small rows only).
+        Constructor terms are numbered (children before parents) for the model and mapped back afterwards."""
+        ids = {}
+
+        def num(x):
+            if isinstance(x, tuple):
+                if x not in ids:
+                    for y in x[1]:
+                        num(y)
+                    ids[x] = 100 + len(ids)
+                return ids[x]
+            return x
+        small = {}
+        need = 1
+        for a in self.atoms:
+            tid = self.tid_of[a.name]
+            small[tid] = [(k, v) for k, v in sorted(cdb.get(tid, {}).items(), key=repr) if all(gen.is_small(x) for x in k)]
+            need = max(need, len(small[tid]))
+        if need > 8:
+            raise model.ModelError("more than 8 small rows in a table")
+        tables = self.tables(rows=max(R, need))
         nts = z3.IntVal(rule_rec["next_ts"])
         pin = []
         for tid, t in tables.items():
-            small = [(k, v) for k, v in sorted(cdb.get(tid, {}).items()) if all(x < gen.BIG for x in k)]
-            if len(small) > t.R:
-                raise model.ModelError("more than R small rows in table %s" % t.name)
             for i, (cols, pres) in enumerate(t.rows):
-                if i < len(small):
-                    key, (val, ts, sub) = small[i]
+                if i < len(small[tid]):
+                    key, (val, ts, sub) = small[tid][i]
                     pin.append(pres)
                     for c, x in enumerate(key):
-                        pin.append(cols[c] == x)
+                        pin.append(cols[c] == num(x))
                     if val is not None:
-                        pin.append(cols[t.func_cols - 1] == val)
+                        pin.append(cols[t.func_cols - 1] == num(val))
                     pin.append(cols[t.ts_col] == ts)
                     if t.subsume:
                         pin.append(cols[t.sub_col] == sub)
                 else:
                     pin.append(z3.Not(pres))
+        back = {v: k for k, v in ids.items()}
         tup = [z3.Int("tup_%s" % v) for v in self.vs]
         alts = []
         for v in variants:
@@ -425,7 +493,7 @@ class Validator:
                 break
             m = s.model()
             t = tuple(m.eval(x, model_completion=True).as_long() for x in tup)
-            out.add(t)
+            out.add(tuple(back.get(x, x) if gen.var_type(v) == "E" else x for x, v in zip(t, self.vs)))
             s.add(z3.Or([x != y for x, y in zip(tup, t)]))
             if len(out) > 500:
                 raise model.ModelError("pinned model enumerates too many tuples")
@@ -436,34 +504,61 @@ class Validator:
 
 
 def small_rows(atoms, rnd, max_rows=R):
-    """a small database over [0,D) built around one or two random substitutions of the body (so that
-    matches exist), padded with noise rows: name -> list of (key, val)"""
+    """a small database over [0,D) (eq-sort positions: constructor terms over [0,D)) built around one or two random
+    substitutions of the body (so that matches exist), padded with noise rows: name -> list of (key, val)"""
     sig = gen.signature(atoms)
-    vs = gen.body_vars(atoms)
+    types = atoms.types
     consts = [e[1] for a in atoms for e in a.args + ([a.ret] if a.ret else []) if e[0] == "c"]
+    pool = gen.ctor_pool(types, 0, D)
     db = {name: {} for name in sig}
+
+    def rand_val(ty):
+        if ty == "E":
+            return rnd.choice(pool) if pool else 0
+        return rnd.choice(consts) if consts and rnd.random() < 0.3 else rnd.randrange(D)
+
     for _ in range(rnd.randint(1, 2)):
-        theta = {v: rnd.randrange(D) for v in vs}
-        for a in atoms:
+        theta = {}
+
+        def val_of(e, ty):
+            if e[0] == "c":
+                return e[1]
+            if e[1] not in theta:
+                theta[e[1]] = rand_val(ty) if ty == "E" else rnd.randrange(D)
+            return theta[e[1]]
+        rows = []
+        ok = True
+        for a in [x for x in atoms if x.kind == "ctor"] + [x for x in atoms if x.kind != "ctor"]:
+            at, rt = types[a.name]
+            key = tuple(val_of(e, t) for e, t in zip(a.args, at))
+            val = None
+            if a.kind == "ctor":
+                term = (a.name, key)
+                if a.ret[0] == "v":
+                    if a.ret[1] in theta and theta[a.ret[1]] != term:
+                        ok = False  # this substitution cannot satisfy the atom; still insert the rest as noise
+                    else:
+                        theta[a.ret[1]] = term
+            elif a.kind == "fn":
+                val = val_of(a.ret, "i")
+            rows.append((a.name, key, val))
+        for name, key, val in rows:
             if rnd.random() < 0.15:
                 continue
-            key = tuple(e[1] if e[0] == "c" else theta[e[1]] for e in a.args)
-            val = None
-            if a.is_func:
-                val = a.ret[1] if a.ret[0] == "c" else theta[a.ret[1]]
-            if len(db[a.name]) < max_rows or key in db[a.name]:
-                db[a.name].setdefault(key, val if val is not None else 0)
+            if len(db[name]) < max_rows or key in db[name]:
+                db[name].setdefault(key, val if val is not None else 0)
     for name, ar in sorted(sig.items()):
+        at, rt = types[name]
         want = rnd.randint(len(db[name]), max_rows)
         for _ in range(10):
             if len(db[name]) >= want:
                 break
-            key = tuple(rnd.choice(consts) if consts and rnd.random() < 0.3 else rnd.randrange(D) for _ in range(ar))
+            key = tuple(rand_val(t) for t in at)
             db[name].setdefault(key, rnd.randrange(D))
-    return {name: sorted(rows.items()) for name, rows in db.items()}
+    return {name: sorted(rows.items(), key=repr) for name, rows in db.items()}
 
 
-def split_steps(sdb, rnd, schedule, with_subsume=False):
+def split_steps(sdb, rnd, schedule, with_subsume=False, subsume_ctors=True):
     """Distribute the small rows over the steps of `schedule` (a list of ruleset names): each row is written
     either at top level before some step ('pre') or by a rule during some step but the last ('aux').
     with_subsume: some relation rows are later subsumed (at top level or by a rule), and some subsumed tuples are
@@ -475,9 +570,9 @@ def split_steps(sdb, rnd, schedule, with_subsume=False):
 
     def emit(k, how, kind, name, key, val):
         if kind == "ins":
-            steps[k][how].append(gen.fact_text(name, key, val, name[0].islower()))
+            steps[k][how].append(gen.fact_text(name, key, val))
         else:
-            steps[k][how].append("(subsume (%s %s))" % (name, " ".join(str(x) for x in key)))
+            steps[k][how].append("(subsume (%s %s))" % (name, " ".join(gen.val_text(x) for x in key)))
         timeline.append((k, how, kind, name, tuple(key), val))
 
     later = []
@@ -486,7 +581,7 @@ def split_steps(sdb, rnd, schedule, with_subsume=False):
             k = rnd.randrange(n)
             how = "aux" if (k < n - 1 and rnd.random() < 0.4) else "pre"
             emit(k, how, "ins", name, key, val)
-            if with_subsume and not name[0].islower() and rnd.random() < 0.45:
+            if with_subsume and (gen.kind_of(name) == "rel" or (gen.kind_of(name) == "ctor" and subsume_ctors)) and rnd.random() < 0.45:
                 # subsume strictly later in program order: a later step, or later in the same (step, how) list
                 k2 = rnd.randrange(k + 1, n) if how == "aux" else rnd.randrange(k, n)
                 how2 = "aux" if (k2 < n - 1 and k2 > k and rnd.random() < 0.4) else "pre"
@@ -521,8 +616,7 @@ def db_at_step(timeline, step, prev_step, tid_of, mid):
             ts = mid + 1
         rows = db.setdefault(tid_of[name], {})
         if kind == "ins":
-            if key not in rows:
-                rows[key] = (val, ts, 0)
+            insert_row(db, tid_of, name, key, val, ts)
         else:
             if key in rows and rows[key][2] == 0:
                 rows[key] = (rows[key][0], ts, 1)
@@ -567,21 +661,67 @@ def step_events(events, trig_tid):
 # witness replay through the real binary
 
 
+def witness_terms(wit):
+    """eq-sort id -> constructor term, from the witness's constructor tables (ids are unique and acyclic by the
+    well-formedness assumption)"""
+    rows = {}
+    for name, t in wit["db"].items():
+        if gen.kind_of(name) == "ctor":
+            fc = t["func_cols"]
+            for row in t["rows"]:
+                rows[row[fc - 1]] = (name, row[:fc - 1], t["coltypes"])
+    memo = {}
+
+    def term(i, depth=0):
+        if i not in memo:
+            if i not in rows or depth > 8:
+                raise model.ModelError("witness id %r has no constructor row" % i)
+            name, args, cts = rows[i]
+            memo[i] = (name, tuple(term(x, depth + 1) if ty == "E" else x for x, ty in zip(args, cts)))
+        return memo[i]
+    return term
+
+
+def witness_db(wit, tid_of, upto_ts=None):
+    """the witness as a concrete database keyed by table id, eq-sort ids replaced by terms"""
+    term = witness_terms(wit)
+    cdb = {}
+    for name, t in wit["db"].items():
+        fc = t["func_cols"]
+        cts = t.get("coltypes") or ["i"] * fc
+        rows = {}
+        for row in t["rows"]:
+            ts = row[fc]
+            if upto_ts is not None and ts >= upto_ts:
+                continue
+            key = tuple(term(x) if ty == "E" else x for x, ty in zip(row[:fc - 1], cts))
+            val = term(row[fc - 1]) if cts[fc - 1] == "E" else row[fc - 1]
+            rows[key] = (val, ts, row[fc + 1] if t["subsume"] else 0)
+        cdb[tid_of[name]] = rows
+    return cdb
+
+
 def witness_program(atoms, no_decomp, profile, wit, mid, head=None):
     """rows with ts < mid: top level before run 1; ts == mid: written by a rule during run 1;
-    ts > mid: top level after run 1.  Subsumed rows: inserted, then `(subsume ...)` in the same class."""
+    ts > mid: top level after run 1.  Subsumed rows: inserted, then `(subsume ...)` in the same class.
+    Constructor rows are emitted before the rows that mention their ids (classes in this order, and inside
+    a class constructor tables first, smaller ids first)."""
+    term = witness_terms(wit)
     cls = {"old": [], "mid": [], "new": []}
-    for name, t in sorted(wit["db"].items()):
-        is_func = name[0].islower()
+    order = sorted(wit["db"].items(), key=lambda kv: (0 if gen.kind_of(kv[0]) == "ctor" else 1, kv[0]))
+    for name, t in order:
         fc = t["func_cols"]
-        for row in t["rows"]:
-            key, val, ts = row[:fc - 1], row[fc - 1], row[fc]
+        cts = t.get("coltypes") or ["i"] * fc
+        for row in sorted(t["rows"], key=lambda r: r[fc - 1]):
+            ts = row[fc]
+            key = tuple(term(x) if ty == "E" else x for x, ty in zip(row[:fc - 1], cts))
+            val = row[fc - 1]
             sub = row[fc + 1] if t["subsume"] else 0
-            cmds = [gen.fact_text(name, key, val, is_func)]
+            cmds = [gen.fact_text(name, key, val)]
             if sub:
-                if is_func:
+                if gen.kind_of(name) == "fn":
                     return None
-                cmds.append("(subsume (%s %s))" % (name, " ".join(str(k) for k in key)))
+                cmds.append("(subsume (%s %s))" % (name, " ".join(gen.val_text(k) for k in key)))
             g = "old" if (mid == 0 or ts < mid) else ("mid" if ts == mid else "new")
             cls[g].extend(cmds)
     if mid > 0:
@@ -593,7 +733,10 @@ def witness_program(atoms, no_decomp, profile, wit, mid, head=None):
 
 def replay_witness(binary, workdir, tag, atoms, no_decomp, profile, wit, rule_rec, plan_key, head=None, seed=0):
     """-> (reproduced: bool|None, note, program, expected, real)"""
-    prog = witness_program(atoms, no_decomp, profile, wit, rule_rec["mid_ts"], head)
+    try:
+        prog = witness_program(atoms, no_decomp, profile, wit, rule_rec["mid_ts"], head)
+    except model.ModelError as e:
+        return None, "witness cannot be rendered as a program: %s" % e, "", set(), set()
     if prog is None:
         return None, "witness subsumes a row of a merge function; not replayable from the surface language", "", set(), set()
     rc, out, err, events = run_program(binary, prog, workdir, tag)
@@ -604,20 +747,12 @@ def replay_witness(binary, workdir, tag, atoms, no_decomp, profile, wit, rule_re
     tid_of = {f["name"]: f["table"] for f in funcs["funcs"]}
     recs = main_rule_records(events, tid_of["Out"])
     keys = [norm_plan_key(rr, variants) for (_, _, rr, variants, _) in recs]
-    real = {t for t in parse_out(out) if all(x < gen.BIG for x in t)}
+    real = {t for t in parse_out(out) if all_small(t)}
     exp = set()
+    projecting = head is not None and set(head) != set(gen.body_vars(atoms))
     for phase_mid in ([None] if rule_rec["mid_ts"] == 0 else [rule_rec["mid_ts"], None]):
-        cdb = {}
-        for name, t in wit["db"].items():
-            fc = t["func_cols"]
-            rows = {}
-            for row in t["rows"]:
-                ts = row[fc]
-                if phase_mid is not None and ts >= phase_mid:
-                    continue  # database as it stood at the first run
-                rows[tuple(row[:fc - 1])] = (row[fc - 1], ts, row[fc + 1] if t["subsume"] else 0)
-            cdb[tid_of[name]] = rows
-        if head is not None and set(head) != set(gen.body_vars(atoms)):
+        cdb = witness_db(wit, tid_of, upto_ts=phase_mid)  # phase_mid: the database as it stood at the first run
+        if projecting:
             exp |= {t for t in eval_body(atoms, tid_of, merged(profile_db(atoms, profile, seed, tid_of), cdb),
                                          small_only=False, head=head) if all_small(t)}
         else:
@@ -650,7 +785,7 @@ def replay_artefact(binary, path, workdir):
     rc, out, err, _ = run_program(binary, m.group(1), workdir, "replay")
     if rc != 0:
         return None, "program exited %d: %s" % (rc, err[-400:])
-    real = {k: {t for t in parse_out(out, k) if all(x < gen.BIG for x in t)} for k in exp}
+    real = {k: {t for t in parse_out(out, k) if all_small(t)} for k in exp}
     note = "real (small range): %s\nexpected: %s\n" % ({k: sorted(v) for k, v in real.items()}, {k: sorted(v) for k, v in exp.items()})
     return (real != exp), note
 
@@ -699,14 +834,16 @@ def work_item(args):
         tag = "%s_%s_%s_%s_%d" % (sid, "nd" if no_decomp else "d", profile[0], res["schedule"], seed)
         rnd = random.Random(zlib.crc32(tag.encode()))
         sdb = small_rows(atoms, rnd)
-        steps, placed = split_steps(sdb, rnd, schedule, with_subsume=(prop == "C13"))
+        # a class whose only node is subsumed prints as `Unextractable`: constructor rows are subsumed only when no
+        # head variable has the eq-sort (the rule's matches stay observable through the printed Out table)
+        steps, placed = split_steps(sdb, rnd, schedule, with_subsume=(prop == "C13"),
+                                    subsume_ctors=not any(gen.var_type(v) == "E" for v in head))
         tail = None
         check_expect = None
         if prop == "C13":
             # (check body) sees subsumed rows; its expected outcome comes from the whole final database
             tid_guess = None
-            body_txt = " ".join(a.render() for a in atoms)
-            tail = ["(check %s)" % body_txt]
+            tail = ["(check %s)" % atoms.text]
         text = gen.render_program(atoms, no_decomp, profile, steps, seed=seed, rules=rules, head=head, tail=tail)
         rc, out, err, events = run_program(binary, text, workdir, tag)
         check_failed = False
@@ -744,7 +881,7 @@ def work_item(args):
                                      % (tag, rs, [ev_to_step.get(i) for (i, _, _, _, _) in recs], my_steps))
                 continue
             naive = ":naive" in ropts
-            real = {t for t in parse_out(out, outrel) if all(x < gen.BIG for x in t)}
+            real = {t for t in parse_out(out, outrel) if all_small(t)}
             exp = set()
             prev = None
             prev_next_ts = 0
@@ -932,7 +1069,7 @@ def configs_for(prop, tier, seed):
         rules = {"main": ("Out", "")}
         profs = [p for p in profiles if p[0] in (("p0", "p3", "p60") if quick else ("p0", "p3", "p60", "skew", "p400"))]
         for sid, body in shapes:
-            if any(a.is_func for a in gen.parse_body(body)):
+            if any(a.kind == "fn" for a in gen.parse_body(body)):
                 continue  # merge functions cannot be subsumed
             cfgs = [(nd, prof, sd, sc, rules) for sc in (["main", "main"], ["main", "main", "main"]) for prof in profs
                     for nd in (False, True) for sd in (seeds if not quick else seeds[:1])]
